@@ -127,6 +127,42 @@ def run(tier, seed, replay=None):
     chk.ob("harness solve (two capacity resources) exits normally", rc4 == 0, err4[-400:])
     nd4, ng4 = compare_reps(chk, runs4, cases4)
     chk.ob("16 repetitions (model rebuilt each time) identical on %d inputs with two capacity resources of different kinds" % ng4, nd4 == 0)
+    # the consumer's pace: the REAL solver loop driven by a scripted operator that improves in (almost) every iteration - 120 to 400
+    # improvements, more than the solver's channel holds - read by an eager consumer and by one that does not read before the solver has
+    # stopped making progress (done, or blocked on its full channel); both must receive what Model/SolverLoop.v srun sends
+    import common as C
+    import os
+    import random
+    prng = random.Random(seed * 31 + 1212121)
+    n5 = 6 if tier == "quick" else 80
+    blocks = []
+    for i in range(n5):
+        score = 1023
+        lines = ["start %d" % score]
+        for _ in range(prng.randint(120, 400)):
+            if score > 2 and prng.random() < 0.9:
+                score -= prng.randint(1, 2)
+                lines.append("exec 1 %d" % score)
+            else:
+                lines.append("exec %d %d" % (prng.randint(0, 1), prng.randint(score, 1023)))
+        blocks.append(("e%d" % i, lines))
+        blocks.append(("s%d" % i, ["stall"] + lines))
+    cf = os.path.join(C.BUILD, "c12_pace_%s.case" % tier)
+    C.write_cases(cf, blocks)
+    (rc5, go_out, go_err), (rc6, ml_out, ml_err) = C.run_both("sloop", cf, timeout=3000)
+    chk.ob("scripted solver (consumer pace): harness and model runner exit normally", rc5 == 0 and rc6 == 0, (go_err + ml_err)[-300:])
+    g, mm = C.group_lines(go_out), C.group_lines(ml_out)
+    npace = 0
+    for i in range(n5):
+        eager, stalled, model = g.get("e%d" % i, []), g.get("s%d" % i, []), mm.get("e%d" % i, [])
+        if eager != stalled or eager != model:
+            npace += 1
+            sent = lambda ls: next((l for l in ls if l.startswith("sent")), "sent")  # noqa: E731
+            chk.violation({"kind": "history", "what": "the solutions delivered depend on the consumer's pace: eager consumer %d solutions, stalled consumer %d, model %d"
+                                                      % (len(sent(eager).split()) - 1, len(sent(stalled).split()) - 1, len(sent(model).split()) - 1),
+                           "case": blocks[2 * i + 1][1], "eager": eager, "stalled": stalled, "model": model,
+                           "how_to_replay": "nrharness sloop <file with: case x / these lines / end>"})
+    chk.ob("eager and stalled consumers receive the sequence SolverLoop.srun sends on %d scripted runs with 120-400 improvements" % n5, npace == 0)
     multi = sum(1 for c in cases if any(len(u["orders"]) > 1 for u in c["model"]["units"]))
     chk.ev.cov.update({
         "evaluations": len(runs), "distinct_nontrivial": multi,
